@@ -3,7 +3,11 @@
 -/
 import Orb.Core
 import Mathlib.Order.Defs.LinearOrder
+import Mathlib.Order.Lattice
+import Mathlib.Order.MinMax
 import Mathlib.Algebra.Order.Ring.Defs
+import Mathlib.Tactic.Ring
+import Mathlib.Tactic.SplitIfs
 
 namespace Orb.Core
 
@@ -28,93 +32,598 @@ def BoundsWF {α : Type} [LE α] : Geom α → Prop
   | _ => True
 
 
+/-- structural induction for the nested inductive `Geom` -/
+theorem Geom.ind {α : Type} {motive : Geom α → Prop}
+    (h1 : ∀ p, motive (.point p)) (h2 : ∀ ps, motive (.multiPoint ps))
+    (h3 : ∀ ps, motive (.lineString ps)) (h4 : ∀ ls, motive (.multiLineString ls))
+    (h5 : ∀ ps, motive (.ring ps)) (h6 : ∀ rs, motive (.polygon rs))
+    (h7 : ∀ ps, motive (.multiPolygon ps)) (h8 : ∀ a b, motive (.bound a b))
+    (hc : ∀ gs, (∀ g ∈ gs, motive g) → motive (.collection gs)) : ∀ g, motive g := by
+  intro g
+  refine Geom.rec (motive_1 := motive) (motive_2 := fun gs => ∀ g ∈ gs, motive g)
+    h1 h2 h3 h4 h5 h6 h7 h8 hc ?_ ?_ g
+  · intro g hg; cases hg
+  · intro head tail hh ht g hg
+    rcases List.mem_cons.1 hg with rfl | hg
+    · exact hh
+    · exact ht g hg
+
+
 section bounds
 variable {α : Type} [LinearOrder α]
 
 theorem contains_iff' (b : Bound α) (p : Pt α) : b.contains p = true ↔ Mem p b := by
-  sorry
+  simp only [Bound.contains, Mem]
+  split_ifs <;> grind
 
 theorem isEmpty_iff' (b : Bound α) : b.isEmpty = true ↔ ¬ ∃ p, Mem p b := by
-  sorry
+  simp only [Bound.isEmpty, Mem, decide_eq_true_eq]
+  constructor
+  · rintro h ⟨p, hp⟩; grind
+  · intro h
+    by_contra hc
+    exact h ⟨b.lo, by grind⟩
+
+theorem isEmpty_false_iff (b : Bound α) : b.isEmpty = false ↔ b.lo.x ≤ b.hi.x ∧ b.lo.y ≤ b.hi.y := by
+  simp only [Bound.isEmpty, decide_eq_false_iff_not, gt_iff_lt, not_or, not_lt]
+
+theorem isEmpty_true_iff (b : Bound α) : b.isEmpty = true ↔ b.hi.x < b.lo.x ∨ b.hi.y < b.lo.y := by
+  simp only [Bound.isEmpty, decide_eq_true_eq, gt_iff_lt]
+
+
+omit [LinearOrder α] in
+theorem Bound.ext' {a b : Bound α} (h1 : a.lo.x = b.lo.x) (h2 : a.lo.y = b.lo.y)
+    (h3 : a.hi.x = b.hi.x) (h4 : a.hi.y = b.hi.y) : a = b := by
+  rcases a with ⟨⟨a1, a2⟩, ⟨a3, a4⟩⟩
+  rcases b with ⟨⟨b1, b2⟩, ⟨b3, b4⟩⟩
+  simp_all
+
+theorem extend_nonempty (b : Bound α) (p : Pt α) (hb : b.isEmpty = false) :
+    b.extend p = ⟨⟨min b.lo.x p.x, min b.lo.y p.y⟩, ⟨max b.hi.x p.x, max b.hi.y p.y⟩⟩ := by
+  unfold Bound.extend
+  rw [hb]
+  simp only [Bool.false_eq_true, if_false]
+  split_ifs with hc
+  · rw [contains_iff'] at hc
+    obtain ⟨h1, h2, h3, h4⟩ := hc
+    apply Bound.ext' <;> simp [*]
+  · rfl
 
 theorem union_nonempty' (a b : Bound α) (ha : a.isEmpty = false) (hb : b.isEmpty = false) :
     a.union b = ⟨⟨min a.lo.x b.lo.x, min a.lo.y b.lo.y⟩, ⟨max a.hi.x b.hi.x, max a.hi.y b.hi.y⟩⟩ := by
-  sorry
+  have ne : ∀ (c : Bound α) (p : Pt α), c.isEmpty = false →
+      (⟨⟨min c.lo.x p.x, min c.lo.y p.y⟩, ⟨max c.hi.x p.x, max c.hi.y p.y⟩⟩ : Bound α).isEmpty = false := by
+    intro c p hc
+    rw [isEmpty_false_iff] at hc ⊢
+    simp only [le_max_iff, min_le_iff]
+    grind
+  unfold Bound.union
+  rw [hb, ha]
+  simp only [Bool.false_eq_true, if_false]
+  have e1 := extend_nonempty a b.lo ha
+  have n1 := ne a b.lo ha
+  rw [← e1] at n1
+  have e2 := extend_nonempty _ b.hi n1
+  have n2 := ne _ b.hi n1
+  rw [← e2] at n2
+  have e3 := extend_nonempty _ b.leftTop n2
+  have n3 := ne _ b.leftTop n2
+  rw [← e3] at n3
+  have e4 := extend_nonempty _ b.rightBottom n3
+  rw [e4, e3, e2, e1]
+  rw [isEmpty_false_iff] at hb
+  obtain ⟨hx, hy⟩ := hb
+  clear e1 e2 e3 e4 n1 n2 n3 ne ha
+  simp only [Bound.leftTop, Bound.rightBottom]
+  apply Bound.ext' <;> simp only [min_assoc, max_assoc] <;> grind
+
 
 theorem union_empty_right' (a e : Bound α) (he : e.isEmpty = true) : a.union e = a := by
-  sorry
+  simp [Bound.union, he]
 
 theorem union_empty_left' (a e : Bound α) (he : e.isEmpty = true) (ha : a.isEmpty = false) : e.union a = a := by
-  sorry
+  simp [Bound.union, he, ha]
+
+theorem isEmpty_cases (a : Bound α) : a.isEmpty = true ∨ a.isEmpty = false := by
+  cases a.isEmpty <;> simp
+
+theorem minmax_nonempty (a b : Bound α) (ha : a.isEmpty = false) :
+    (⟨⟨min a.lo.x b.lo.x, min a.lo.y b.lo.y⟩, ⟨max a.hi.x b.hi.x, max a.hi.y b.hi.y⟩⟩ : Bound α).isEmpty = false := by
+  rw [isEmpty_false_iff] at ha ⊢
+  simp only [le_max_iff, min_le_iff]
+  grind
+
+theorem union_isEmpty_false_left (a b : Bound α) (ha : a.isEmpty = false) : (a.union b).isEmpty = false := by
+  rcases isEmpty_cases b with hb | hb
+  · rw [union_empty_right' _ _ hb]; exact ha
+  · rw [union_nonempty' _ _ ha hb]; exact minmax_nonempty a b ha
+
+theorem union_isEmpty_false_right (a b : Bound α) (hb : b.isEmpty = false) : (a.union b).isEmpty = false := by
+  rcases isEmpty_cases a with ha | ha
+  · rw [union_empty_left' _ _ ha hb]; exact hb
+  · exact union_isEmpty_false_left a b ha
 
 theorem union_comm' (a b : Bound α) : Equiv (a.union b) (b.union a) := by
-  sorry
+  rcases isEmpty_cases a with ha | ha <;> rcases isEmpty_cases b with hb | hb
+  · left; rw [union_empty_right' _ _ hb, union_empty_right' _ _ ha]; exact ⟨ha, hb⟩
+  · right; rw [union_empty_left' _ _ ha hb, union_empty_right' _ _ ha]
+  · right; rw [union_empty_left' _ _ hb ha, union_empty_right' _ _ hb]
+  · right; rw [union_nonempty' _ _ ha hb, union_nonempty' _ _ hb ha]
+    apply Bound.ext' <;> simp only [min_comm, max_comm]
 
 theorem union_assoc' (a b c : Bound α) : Equiv ((a.union b).union c) (a.union (b.union c)) := by
-  sorry
+  right
+  rcases isEmpty_cases c with hc | hc
+  · rw [union_empty_right' _ _ hc, union_empty_right' _ _ hc]
+  rcases isEmpty_cases b with hb | hb
+  · rw [union_empty_right' _ _ hb, union_empty_left' _ _ hb hc]
+  rcases isEmpty_cases a with ha | ha
+  · rw [union_empty_left' _ _ ha hb, union_empty_left' _ _ ha (union_isEmpty_false_left b c hb)]
+  · have hab := union_isEmpty_false_left a b ha
+    have hbc := union_isEmpty_false_left b c hb
+    rw [union_nonempty' _ _ hab hc, union_nonempty' _ _ ha hbc]
+    rw [union_nonempty' _ _ ha hb, union_nonempty' _ _ hb hc]
+    apply Bound.ext' <;> simp only [min_assoc, max_assoc]
 
 theorem union_idem' (a : Bound α) : a.union a = a := by
-  sorry
+  rcases isEmpty_cases a with ha | ha
+  · exact union_empty_right' _ _ ha
+  · rw [union_nonempty' _ _ ha ha]
+    apply Bound.ext' <;> simp
+
+theorem mem_nonempty {p : Pt α} {b : Bound α} (h : Mem p b) : b.isEmpty = false := by
+  rw [isEmpty_false_iff]; unfold Mem at h; grind
+
+theorem mem_minmax_iff (a b : Bound α) (p : Pt α) :
+    Mem p ⟨⟨min a.lo.x b.lo.x, min a.lo.y b.lo.y⟩, ⟨max a.hi.x b.hi.x, max a.hi.y b.hi.y⟩⟩ ↔
+      (min a.lo.x b.lo.x ≤ p.x ∧ p.x ≤ max a.hi.x b.hi.x ∧ min a.lo.y b.lo.y ≤ p.y ∧ p.y ≤ max a.hi.y b.hi.y) := by
+  rfl
 
 theorem union_upper' (a b : Bound α) (p : Pt α) (h : Mem p a ∨ Mem p b) : Mem p (a.union b) := by
-  sorry
+  rcases isEmpty_cases a with ha | ha
+  · rcases h with h | h
+    · rw [mem_nonempty h] at ha; cases ha
+    · rw [union_empty_left' _ _ ha (mem_nonempty h)]; exact h
+  rcases isEmpty_cases b with hb | hb
+  · rcases h with h | h
+    · rw [union_empty_right' _ _ hb]; exact h
+    · rw [mem_nonempty h] at hb; cases hb
+  rw [union_nonempty' _ _ ha hb, mem_minmax_iff]
+  simp only [le_max_iff, min_le_iff]
+  unfold Mem at h
+  grind
 
 theorem union_least' (a b c : Bound α) (ha : ∀ p, Mem p a → Mem p c) (hb : ∀ p, Mem p b → Mem p c) :
     ∀ p, Mem p (a.union b) → Mem p c := by
-  sorry
+  rcases isEmpty_cases b with hb' | hb'
+  · rw [union_empty_right' _ _ hb']; exact ha
+  rcases isEmpty_cases a with ha' | ha'
+  · rw [union_empty_left' _ _ ha' hb']; exact hb
+  rw [union_nonempty' _ _ ha' hb']
+  intro p hp
+  rw [mem_minmax_iff] at hp
+  rw [isEmpty_false_iff] at ha' hb'
+  have h1 := ha a.lo (by unfold Mem; grind)
+  have h2 := ha a.hi (by unfold Mem; grind)
+  have h3 := hb b.lo (by unfold Mem; grind)
+  have h4 := hb b.hi (by unfold Mem; grind)
+  clear ha hb
+  unfold Mem at *
+  simp only [le_max_iff, min_le_iff] at hp
+  grind
+
+
+theorem point_nonempty (p : Pt α) : (⟨p, p⟩ : Bound α).isEmpty = false := by
+  rw [isEmpty_false_iff]; exact ⟨le_refl _, le_refl _⟩
+
+theorem extend_empty (b : Bound α) (p : Pt α) (hb : b.isEmpty = true) : b.extend p = ⟨p, p⟩ := by
+  simp [Bound.extend, hb]
 
 theorem extend_eq_union_point' (b : Bound α) (p : Pt α) : b.extend p = b.union ⟨p, p⟩ := by
-  sorry
+  rcases isEmpty_cases b with hb | hb
+  · rw [extend_empty _ _ hb, union_empty_left' _ _ hb (point_nonempty p)]
+  · rw [extend_nonempty _ _ hb, union_nonempty' _ _ hb (point_nonempty p)]
 
 theorem extend_contains' (b : Bound α) (p : Pt α) : Mem p (b.extend p) := by
-  sorry
+  rw [extend_eq_union_point']
+  apply union_upper'
+  right
+  exact ⟨le_refl _, le_refl _, le_refl _, le_refl _⟩
 
 theorem extend_absorb' (b : Bound α) (p : Pt α) (h : Mem p b) : b.extend p = b := by
-  sorry
+  have hb := mem_nonempty h
+  rw [← contains_iff'] at h
+  simp [Bound.extend, hb, h]
 
 theorem intersects_comm' (a b : Bound α) : a.intersects b = b.intersects a := by
-  sorry
+  simp only [Bound.intersects]
+  split_ifs <;> grind
 
 theorem intersects_iff_common_point' (a b : Bound α) (ha : a.isEmpty = false) (hb : b.isEmpty = false) :
     a.intersects b = true ↔ ∃ p, Mem p a ∧ Mem p b := by
-  sorry
+  rw [isEmpty_false_iff] at ha hb
+  simp only [Bound.intersects, Mem]
+  constructor
+  · intro h
+    split_ifs at h with hc
+    simp only [gt_iff_lt, not_or, not_lt] at hc
+    refine ⟨⟨max a.lo.x b.lo.x, max a.lo.y b.lo.y⟩, ?_⟩
+    simp only [le_max_iff, max_le_iff]
+    grind
+  · rintro ⟨p, hp⟩
+    split_ifs with hc
+    · grind
+    · rfl
+
+
+/-- `b` is empty when there are no vertices and the tight box otherwise. -/
+def Good (vs : List (Pt α)) (b : Bound α) : Prop :=
+  (vs = [] → b.isEmpty = true) ∧ (vs ≠ [] → IsTight vs b)
+
+theorem tight_nonempty {vs : List (Pt α)} {b : Bound α} (hv : vs ≠ []) (h : IsTight vs b) :
+    b.isEmpty = false := by
+  cases vs with
+  | nil => exact absurd rfl hv
+  | cons v _ => exact mem_nonempty (h.1 v (List.mem_cons_self ..))
+
+theorem tight_point (p : Pt α) : IsTight [p] (⟨p, p⟩ : Bound α) := by
+  constructor
+  · intro v hv
+    rw [List.mem_singleton] at hv
+    subst hv
+    exact ⟨le_refl _, le_refl _, le_refl _, le_refl _⟩
+  · intro c hc q hq
+    have h := hc p (List.mem_singleton.2 rfl)
+    unfold Mem at *
+    simp only at hq
+    grind
+
+theorem tight_union {vs ws : List (Pt α)} {a b : Bound α} (ha : IsTight vs a) (hb : IsTight ws b) :
+    IsTight (vs ++ ws) (a.union b) := by
+  constructor
+  · intro v hv
+    rw [List.mem_append] at hv
+    apply union_upper'
+    rcases hv with hv | hv
+    · exact Or.inl (ha.1 v hv)
+    · exact Or.inr (hb.1 v hv)
+  · intro c hc
+    apply union_least'
+    · exact ha.2 c (fun v hv => hc v (List.mem_append_left _ hv))
+    · exact hb.2 c (fun v hv => hc v (List.mem_append_right _ hv))
+
+theorem good_union {vs ws : List (Pt α)} {a b : Bound α} (ha : Good vs a) (hb : Good ws b) :
+    Good (vs ++ ws) (a.union b) := by
+  by_cases hw : ws = []
+  · subst hw
+    rw [List.append_nil, union_empty_right' _ _ (hb.1 rfl)]
+    exact ha
+  by_cases hv : vs = []
+  · subst hv
+    rw [List.nil_append, union_empty_left' _ _ (ha.1 rfl) (tight_nonempty hw (hb.2 hw))]
+    exact hb
+  refine ⟨fun h => ?_, fun _ => tight_union (ha.2 hv) (hb.2 hw)⟩
+  simp only [List.append_eq_nil_iff] at h
+  exact absurd h.1 hv
+
+theorem good_foldl {X : Type} (f : X → Bound α) (v : X → List (Pt α)) (l : List X)
+    (h : ∀ x ∈ l, Good (v x) (f x)) (V0 : List (Pt α)) (b0 : Bound α) (h0 : Good V0 b0) :
+    Good (V0 ++ l.flatMap v) (l.foldl (fun b x => b.union (f x)) b0) := by
+  induction l generalizing V0 b0 with
+  | nil => simpa using h0
+  | cons x l ih =>
+    rw [List.flatMap_cons, ← List.append_assoc, List.foldl_cons]
+    apply ih
+    · intro y hy; exact h y (List.mem_cons_of_mem _ hy)
+    · exact good_union h0 (h x (List.mem_cons_self ..))
+
+theorem good_foldl_cons {X : Type} (f : X → Bound α) (v : X → List (Pt α)) (x : X) (l : List X)
+    (h : ∀ y ∈ x :: l, Good (v y) (f y)) :
+    Good ((x :: l).flatMap v) (l.foldl (fun b x => b.union (f x)) (f x)) := by
+  rw [List.flatMap_cons]
+  apply good_foldl
+  · intro y hy; exact h y (List.mem_cons_of_mem _ hy)
+  · exact h x (List.mem_cons_self ..)
+
+theorem tight_foldl_extend (l : List (Pt α)) (vs : List (Pt α)) (b : Bound α) (hv : vs ≠ [])
+    (h : IsTight vs b) : IsTight (vs ++ l) (l.foldl Bound.extend b) := by
+  induction l generalizing vs b with
+  | nil => simpa using h
+  | cons x l ih =>
+    rw [List.foldl_cons, extend_eq_union_point']
+    have : vs ++ x :: l = (vs ++ [x]) ++ l := by simp
+    rw [this]
+    apply ih
+    · simp
+    · exact tight_union h (tight_point x)
 
 theorem multiPointBound_tight' (eb : Bound α) (ps : List (Pt α)) (h : ps ≠ []) :
     IsTight ps (multiPointBound eb ps) := by
-  sorry
+  cases ps with
+  | nil => exact absurd rfl h
+  | cons p rest =>
+    simp only [multiPointBound, List.foldl_cons]
+    rw [extend_absorb' _ _ ((tight_point p).1 p (List.mem_singleton.2 rfl))]
+    exact tight_foldl_extend rest [p] _ (by simp) (tight_point p)
+
+theorem good_multiPointBound (eb : Bound α) (he : eb.isEmpty = true) (ps : List (Pt α)) :
+    Good ps (multiPointBound eb ps) := by
+  refine ⟨fun h => ?_, multiPointBound_tight' eb ps⟩
+  subst h
+  exact he
+
+theorem good_polygonBound (eb : Bound α) (he : eb.isEmpty = true) (rs : List (List (Pt α))) :
+    Good (rs.head?.getD []) (polygonBound eb rs) := by
+  cases rs with
+  | nil => exact ⟨fun _ => he, fun h => absurd rfl h⟩
+  | cons r _ => exact good_multiPointBound eb he r
+
+theorem good_bound (eb : Bound α) (he : eb.isEmpty = true) (g : Geom α) (hw : BoundsWF g) :
+    Good (bverts g) (bound eb g) := by
+  induction g using Geom.ind with
+  | h1 p =>
+    simp only [bverts, bound]
+    exact ⟨fun h => absurd h (List.cons_ne_nil _ _), fun _ => tight_point p⟩
+  | h2 ps => simp only [bverts, bound]; exact good_multiPointBound eb he ps
+  | h3 ps => simp only [bverts, bound]; exact good_multiPointBound eb he ps
+  | h5 ps => simp only [bverts, bound]; exact good_multiPointBound eb he ps
+  | h4 ls =>
+    simp only [bverts, bound]
+    cases ls with
+    | nil => exact ⟨fun _ => he, fun h => absurd rfl h⟩
+    | cons l rest =>
+      rw [← List.flatMap_id]
+      exact good_foldl_cons (multiPointBound eb) id l rest (fun y _ => good_multiPointBound eb he y)
+  | h6 rs => simp only [bverts, bound]; exact good_polygonBound eb he rs
+  | h7 ps =>
+    simp only [bverts, bound]
+    cases ps with
+    | nil => exact ⟨fun _ => he, fun h => absurd rfl h⟩
+    | cons l rest =>
+      exact good_foldl_cons (polygonBound eb) (fun rs => rs.head?.getD []) l rest
+        (fun y _ => good_polygonBound eb he y)
+  | h8 a b =>
+    simp only [bverts, bound]
+    simp only [BoundsWF] at hw
+    refine ⟨fun h => absurd h (List.cons_ne_nil _ _), fun _ => ⟨?_, ?_⟩⟩
+    · intro v hv
+      simp only [List.mem_cons, List.not_mem_nil, or_false] at hv
+      unfold Mem
+      rcases hv with rfl | rfl <;> simp [hw.1, hw.2]
+    · intro c hc p hp
+      have ha := hc a (by simp)
+      have hb := hc b (by simp)
+      unfold Mem at *
+      simp only at hp
+      grind
+  | hc gs ih =>
+    rw [BoundsWF] at hw
+    rw [bverts]
+    cases gs with
+    | nil => rw [bound]; exact ⟨fun _ => he, fun h => absurd rfl h⟩
+    | cons g rest =>
+      rw [bound]
+      exact good_foldl_cons (bound eb) bverts g rest (fun y hy => ih y hy (hw y hy))
 
 theorem bound_tight' (eb : Bound α) (he : eb.isEmpty = true) (g : Geom α) (hw : BoundsWF g) (hv : bverts g ≠ []) :
-    IsTight (bverts g) (bound eb g) := by
-  sorry
+    IsTight (bverts g) (bound eb g) :=
+  (good_bound eb he g hw).2 hv
 
 theorem bound_empty_iff' (eb : Bound α) (he : eb.isEmpty = true) (g : Geom α) (hw : BoundsWF g) :
     (bound eb g).isEmpty = true ↔ bverts g = [] := by
-  sorry
+  constructor
+  · intro h
+    by_contra hv
+    rw [tight_nonempty hv ((good_bound eb he g hw).2 hv)] at h
+    cases h
+  · exact (good_bound eb he g hw).1
 
 end bounds
 
 section equality
 variable {α : Type} [BEq α] [LawfulBEq α]
 
+theorem ptEq_iff (p q : Pt α) : ptEq p q = true ↔ p = q := by
+  cases p; cases q
+  simp [ptEq]
+
+theorem ptsEq_iff (p q : List (Pt α)) : ptsEq p q = true ↔ p = q := by
+  induction p generalizing q with
+  | nil => cases q <;> simp [ptsEq]
+  | cons a p ih => cases q <;> simp [ptsEq, ptEq_iff, ih]
+
+theorem ptssEq_iff (p q : List (List (Pt α))) : ptssEq p q = true ↔ p = q := by
+  induction p generalizing q with
+  | nil => cases q <;> simp [ptssEq]
+  | cons a p ih => cases q <;> simp [ptssEq, ptsEq_iff, ih]
+
+theorem ptsssEq_iff (p q : List (List (List (Pt α)))) : ptsssEq p q = true ↔ p = q := by
+  induction p generalizing q with
+  | nil => cases q <;> simp [ptsssEq]
+  | cons a p ih => cases q <;> simp [ptsssEq, ptssEq_iff, ih]
+
+omit [LawfulBEq α] in
+theorem equal_go_iff (gs : List (Geom α)) (ih : ∀ g ∈ gs, ∀ h, equal g h = true ↔ g = h)
+    (hs : List (Geom α)) : equal.go gs hs = true ↔ gs = hs := by
+  induction gs generalizing hs with
+  | nil => cases hs <;> simp [equal.go]
+  | cons g gs ih2 =>
+    cases hs with
+    | nil => simp [equal.go]
+    | cons h hs =>
+      simp only [equal.go, Bool.and_eq_true, List.cons.injEq]
+      rw [ih g (List.mem_cons_self ..) h, ih2 (fun g hg => ih g (List.mem_cons_of_mem _ hg))]
+
 theorem equal_iff' (g h : Geom α) : equal g h = true ↔ g = h := by
-  sorry
+  induction g using Geom.ind generalizing h with
+  | hc gs ih =>
+    cases h <;> simp only [equal, reduceCtorEq, Bool.false_eq_true]
+    rw [equal_go_iff gs ih]
+    simp
+  | _ => cases h <;> simp [equal, ptEq_iff, ptsEq_iff, ptssEq_iff, ptsssEq_iff]
+
 
 theorem equalV_iff' (a b : GVal α) : equalV a b = true ↔ normV a = normV b := by
-  sorry
+  cases a <;> cases b <;> simp [equalV, normV, equal_iff']
 
 theorem clone_equal' (v : GVal α) : equalV v (cloneV v) = true := by
-  sorry
+  rw [equalV_iff']
+  cases v <;> rfl
 
 end equality
 
+/-- one iteration of the swap loop of `reverse` -/
+def revStep {β : Type} (l : Nat) (a : Array β) (i : Nat) : Array β :=
+  if h : i < a.size ∧ l - i < a.size then a.swap i (l - i) h.1 h.2 else a
+
+theorem rev_inv {β : Type} (a : Array β) (k : Nat) (hk : k ≤ a.size / 2) :
+    ((List.range k).foldl (revStep (a.size - 1)) a).size = a.size ∧
+    ∀ j, j < a.size → ((List.range k).foldl (revStep (a.size - 1)) a)[j]? =
+      if j < k ∨ a.size - 1 - j < k then a[a.size - 1 - j]? else a[j]? := by
+  induction k with
+  | zero => simp
+  | succ k ih =>
+    obtain ⟨hs, hg⟩ := ih (by omega)
+    rw [List.range_succ, List.foldl_append, List.foldl_cons, List.foldl_nil]
+    generalize (List.range k).foldl (revStep (a.size - 1)) a = A at hs hg
+    have hc : k < A.size ∧ a.size - 1 - k < A.size := by omega
+    have hstep : revStep (a.size - 1) A k = A.swap k (a.size - 1 - k) hc.1 hc.2 := by
+      simp only [revStep, dif_pos hc]
+    rw [hstep]
+    refine ⟨by rw [Array.size_swap, hs], ?_⟩
+    intro j hj
+    rw [Array.getElem?_swap]
+    have e1 : some A[k] = A[k]? := (Array.getElem?_eq_getElem hc.1).symm
+    have e2 : some A[a.size - 1 - k] = A[a.size - 1 - k]? := (Array.getElem?_eq_getElem hc.2).symm
+    rw [e1, e2]
+    have g1 := hg k (by omega)
+    have g2 := hg (a.size - 1 - k) (by omega)
+    have g3 := hg j hj
+    rw [g1, g2, g3]
+    have e3 : a.size - 1 - (a.size - 1 - k) = k := by omega
+    rw [e3]
+    split_ifs <;> first | rfl | (exfalso; omega) | (congr 1; omega)
+
 theorem reverse_eq' {β : Type} (ps : List β) : reverse ps = ps.reverse := by
-  sorry
+  unfold reverse
+  simp only []
+  obtain ⟨hs, hg⟩ := rev_inv ps.toArray (ps.toArray.size / 2) (Nat.le_refl _)
+  change (List.foldl (revStep (ps.toArray.size - 1)) ps.toArray (List.range (ps.toArray.size / 2))).toList = _
+  generalize (List.range (ps.toArray.size / 2)).foldl (revStep (ps.toArray.size - 1)) ps.toArray = A at hs hg
+  simp only [List.size_toArray] at hs hg
+  apply List.ext_getElem?
+  intro j
+  by_cases hj : j < ps.length
+  · rw [Array.getElem?_toList, hg j hj, List.getElem?_reverse hj]
+    simp only [List.getElem?_toArray]
+    split_ifs
+    · rfl
+    · congr 1; omega
+  · rw [List.getElem?_eq_none (by simp; omega), List.getElem?_eq_none (by simp; omega)]
+
 
 section orient
-variable {α : Type} [CommRing α] [LinearOrder α] [IsStrictOrderedRing α]
+variable {α : Type} [CommRing α]
+
+def cross (p q : Pt α) : α := p.x * q.y - q.x * p.y
+
+/-- fan sum from base point `o` over the open chain `l` -/
+def fan (o : Pt α) : List (Pt α) → α
+  | p :: q :: t => ((p.x - o.x) * (q.y - o.y) - (q.x - o.x) * (p.y - o.y)) + fan o (q :: t)
+  | _ => 0
+
+/-- open shoelace sum -/
+def chain : List (Pt α) → α
+  | p :: q :: t => cross p q + chain (q :: t)
+  | _ => 0
+
+def lastD : Pt α → List (Pt α) → Pt α
+  | p, [] => p
+  | _, q :: t => lastD q t
+
+omit [CommRing α] in
+theorem getLast?_cons_lastD (p : Pt α) (t : List (Pt α)) : (p :: t).getLast? = some (lastD p t) := by
+  induction t generalizing p with
+  | nil => rfl
+  | cons q t ih => rw [List.getLast?_cons_cons, ih]; rfl
+
+/-- cyclic shoelace sum -/
+def cyc (l : List (Pt α)) : α :=
+  chain l + (match l.getLast?, l.head? with
+    | some z, some a => cross z a
+    | _, _ => 0)
+
+theorem go_eq_fan (o : Pt α) (l : List (Pt α)) (acc : α) :
+    orientArea.go o l acc = acc + fan o l := by
+  induction l generalizing acc with
+  | nil => simp [orientArea.go, fan]
+  | cons p t ih =>
+    cases t with
+    | nil => simp [orientArea.go, fan]
+    | cons q t =>
+      rw [orientArea.go, ih, fan]
+      ring
+
+theorem fan_eq (o p : Pt α) (t : List (Pt α)) :
+    fan o (p :: t) = chain (p :: t) + cross o p - cross o (lastD p t) := by
+  induction t generalizing p with
+  | nil => simp [fan, chain, lastD]
+  | cons q t ih =>
+    rw [fan, ih, chain, lastD]
+    simp only [cross]
+    ring
+
+theorem orientArea_eq_cyc (r : List (Pt α)) : orientArea r = cyc r := by
+  cases r with
+  | nil => simp [orientArea, cyc, chain]
+  | cons o rest =>
+    simp only [orientArea]
+    rw [go_eq_fan, cyc, getLast?_cons_lastD]
+    cases rest with
+    | nil => simp [fan, chain, lastD, cross]
+    | cons p t =>
+      rw [fan_eq, chain, lastD]
+      simp only [List.head?_cons, cross]
+      ring
+
+theorem chain_append_single (l : List (Pt α)) (q : Pt α) :
+    chain (l ++ [q]) = chain l + (match l.getLast? with | some z => cross z q | none => 0) := by
+  induction l with
+  | nil => simp [chain]
+  | cons a l ih =>
+    cases l with
+    | nil => simp [chain]
+    | cons b l =>
+      rw [List.getLast?_cons_cons]
+      simp only [List.cons_append, chain] at ih ⊢
+      rw [ih]; ring
+
+theorem chain_reverse (l : List (Pt α)) : chain l.reverse = - chain l := by
+  induction l with
+  | nil => simp [chain]
+  | cons p t ih =>
+    rw [List.reverse_cons, chain_append_single, ih, List.getLast?_reverse]
+    cases t with
+    | nil => simp [chain]
+    | cons q t => simp only [List.head?_cons, chain, cross]; ring
+
+theorem cyc_reverse (l : List (Pt α)) : cyc l.reverse = - cyc l := by
+  unfold cyc
+  rw [chain_reverse, List.getLast?_reverse, List.head?_reverse]
+  cases h1 : l.head? <;> cases h2 : l.getLast? <;> simp only [cross] <;> ring
+
+variable [LinearOrder α] [IsStrictOrderedRing α]
 
 theorem orientation_reverse' (r : List (Pt α)) : orientation (reverse r) = - orientation r := by
-  sorry
+  rw [reverse_eq']
+  unfold orientation
+  simp only []
+  rw [orientArea_eq_cyc, orientArea_eq_cyc, cyc_reverse]
+  generalize cyc r = a
+  have h1 : (0 : α) < -a ↔ a < 0 := neg_pos
+  have h2 : -a < 0 ↔ 0 < a := neg_lt_zero
+  split_ifs <;> simp_all
+  exact lt_asymm ‹a < 0› ‹0 < a›
 
 end orient
 
